@@ -1,6 +1,7 @@
 package main
 
 import (
+	"time"
 	"fmt"
 	"strconv"
 	"strings"
@@ -70,10 +71,57 @@ func execMuxSeq(toks []string) string {
 	ops, _ := kvGet(toks, "ops")
 	mux := diam.NewServeMux()
 	var called []int
-	mk := func(k int) diam.HandlerFunc { return func(diam.Conn, *diam.Message) { called = append(called, k) } }
+	panicNext := false
+	mk := func(k int) diam.HandlerFunc {
+		return func(diam.Conn, *diam.Message) {
+			called = append(called, k)
+			if panicNext {
+				panicNext = false
+				scriptedPanic()
+			}
+		}
+	}
 	var outs []string
+	// a registration made after a handler has panicked (and the panic was recovered, as conn.serve
+	// does) must still go through
+	reg := func(f func()) bool {
+		done := make(chan struct{})
+		go func() { f(); close(done) }()
+		select {
+		case <-done:
+			return true
+		case <-time.After(time.Second):
+			return false
+		}
+	}
 	for _, t := range strings.Split(ops, ",") {
 		p := strings.Split(t, ":")
+		if (p[0] == "a" || p[0] == "n" || p[0] == "i") && len(outs) > 0 && strings.HasSuffix(outs[len(outs)-1], "!") {
+			// the first registration after a panic is watched
+			tt := t
+			ok := reg(func() {
+				q := strings.Split(tt, ":")
+				switch {
+				case q[0] == "a" && len(q) == 2:
+					k, _ := strconv.Atoi(q[1])
+					mux.HandleFunc("ALL", mk(k))
+				case q[0] == "n" && len(q) == 3:
+					k, _ := strconv.Atoi(q[2])
+					mux.Handle(q[1], mk(k))
+				case q[0] == "i" && len(q) == 5:
+					a, _ := strconv.ParseUint(q[1], 10, 32)
+					c, _ := strconv.ParseUint(q[2], 10, 32)
+					k, _ := strconv.Atoi(q[4])
+					mux.HandleIdx(diam.CommandIndex{AppID: uint32(a), Code: uint32(c), Request: q[3] == "R"}, mk(k))
+				}
+			})
+			if !ok {
+				outs = append(outs, "registration-stuck")
+				return strings.Join(outs, ",")
+			}
+			outs[len(outs)-1] += "+"
+			continue
+		}
 		switch {
 		case p[0] == "a" && len(p) == 2:
 			k, _ := strconv.Atoi(p[1])
@@ -86,7 +134,8 @@ func execMuxSeq(toks []string) string {
 			c, _ := strconv.ParseUint(p[2], 10, 32)
 			k, _ := strconv.Atoi(p[4])
 			mux.HandleIdx(diam.CommandIndex{AppID: uint32(a), Code: uint32(c), Request: p[3] == "R"}, mk(k))
-		case p[0] == "d" && len(p) == 4:
+		case (p[0] == "d" || p[0] == "p") && len(p) == 4:
+			panicNext = p[0] == "p"
 			a, _ := strconv.ParseUint(p[1], 10, 32)
 			c, _ := strconv.ParseUint(p[2], 10, 32)
 			flags := uint8(0)
@@ -96,9 +145,14 @@ func execMuxSeq(toks []string) string {
 			called = nil
 			m := diam.NewMessage(uint32(c), flags, uint32(a), 1, 1, dict.Default)
 			if r := guard(func() { mux.ServeDIAM(nil, m) }); r != "" {
-				outs = append(outs, r)
+				if p[0] == "p" && len(called) == 1 {
+					outs = append(outs, fmt.Sprintf("h%d!", called[0]))
+				} else {
+					outs = append(outs, r)
+				}
 				continue
 			}
+			panicNext = false
 			reported := false
 			select {
 			case <-mux.ErrorReports():
@@ -138,6 +192,8 @@ func genMuxSeq(r *RNG, n int, emit func(string)) {
 				ops = append(ops, fmt.Sprintf("i:%d:%d:%s:%d", app, code, rb, h))
 			case 2:
 				ops = append(ops, fmt.Sprintf("a:%d", h))
+			case 3: // the handler that is chosen panics (the connection's serve loop recovers)
+				ops = append(ops, fmt.Sprintf("p:%d:%d:%s", app, code, rb))
 			default:
 				ops = append(ops, fmt.Sprintf("d:%d:%d:%s", app, code, rb))
 			}
